@@ -2,7 +2,11 @@
 package all
 
 import (
+	_ "verifmc/props/c02"
 	_ "verifmc/props/c03"
 	_ "verifmc/props/c04"
 	_ "verifmc/props/c15"
+	_ "verifmc/props/c25"
+	_ "verifmc/props/c26"
+	_ "verifmc/props/c35"
 )
